@@ -389,7 +389,8 @@ def arrsem_correspondence(run, rnd, funs):
         meta.append((func, fd, cols, n))
     outs = common.driver([json.dumps(o, ensure_ascii=False) for o in ops])
     bad = []
-    stats = {"both-ok": 0, "both-loud": 0, "model-loud-only": 0, "numpy-loud-only": 0, "poison": 0}
+    stats = {"both-ok": 0, "both-loud": 0, "model-loud-only": 0, "numpy-loud-only": 0, "poison": 0,
+             "aliased-aug (in-place numpy semantics, outside the functional model's contract)": 0}
     for (func, fd, cols, n), o in zip(meta, outs):
         j = json.loads(o)
         try:
@@ -404,7 +405,12 @@ def arrsem_correspondence(run, rnd, funs):
         run.case({"arrsem": fd["name"], "src": common.digest(fd), "n": n})
         run.traces += 1
         model_ok = "ok" in j
-        if model_ok and real[0] == "ok":
+        if model_ok and real[0] == "ok" and j.get("noAliasedAug") is False:
+            # `out = x; out += e` mutates x in numpy; Core/ArrSem.lean is functional and its soundness theorem
+            # (VecTy.funOK) excludes exactly these programs -- the search below still runs them against the
+            # scalar function
+            stats["aliased-aug (in-place numpy semantics, outside the functional model's contract)"] += 1
+        elif model_ok and real[0] == "ok":
             stats["both-ok"] += 1
             a = j["ok"]
             vals = a["col"] if "col" in a else [a["scalar"]] * n
